@@ -68,9 +68,33 @@ def _fill(spec):
 
 
 @st.composite
+def _contrast(draw):
+    """chains of large three-atom residues (size about 1.6 nm) followed by chains of small one-bead residues
+    (0.2-0.3 nm) in a fairly dense box with a low force limit: the small ones are placed among the large ones"""
+    big = {"resname": "RA", "atoms": [{"name": f"a{i + 1}", "type": "TA", "mass": 72.0} for i in range(3)],
+           "bonds": [[0, 1, 0.47], [1, 2, 0.47]], "vs": None}
+    small = {"resname": "RB", "atoms": [{"name": "b1", "type": "TB", "mass": 36.0}], "bonds": [], "vs": None}
+    nbig, nsmall = draw(st.integers(3, 5)), draw(st.integers(4, 8))
+    moltypes = [{"name": "MA", "residues": [big] * nbig, "shape": "linear", "nrexcl": 1,
+                 "res_edges": [[i, i + 1] for i in range(nbig - 1)]},
+                {"name": "MB", "residues": [small] * nsmall, "shape": "linear", "nrexcl": 1,
+                 "res_edges": [[i, i + 1] for i in range(nsmall - 1)]}]
+    counts = [draw(st.integers(4, 8)), draw(st.integers(8, 16))]
+    edge = round((counts[0] * nbig * 4.5 + counts[1] * nsmall * 0.3) ** (1.0 / 3.0) + 0.5, 1)
+    return {"rng": draw(st.integers(0, 2**31 - 1)), "comb": 2,
+            "atomtypes": [{"name": "TA", "mass": 72.0, "sigma": 0.6, "eps": 2.0},
+                          {"name": "TB", "mass": 36.0, "sigma": draw(st.sampled_from([0.2, 0.3])), "eps": 2.0}],
+            "moltypes": moltypes, "molecules": [["MA", counts[0]], ["MB", counts[1]]],
+            "opts": {"box": [edge, edge, edge], "max_force": draw(st.sampled_from([100.0, 500.0])), "grid_spacing": 0.5},
+            "coords": None, "build": None}
+
+
+@st.composite
 def _strategy(draw):
     if draw(st.integers(0, 7)) == 0:
         return draw(_rings())
+    if draw(st.integers(0, 9)) == 0:
+        return draw(_contrast())
     if draw(st.integers(0, 39)) == 0:
         return draw(_large())
     spec = draw(gc.system(max_res=8, max_total_mol=5, variants=True))
